@@ -15,6 +15,12 @@ CLAIMED = {
             'on the implementation\'s outputs for every generated case.',
             'Lean kernel; axioms propext/Classical.choice/Quot.sound; FFT path and libm by contract (measured each run); '
             'IEEE rounding absorbed by tolerance; generator-bounded correspondence.', '5 C02'),
+    'C03': ('Lean 4 theorems (affine relabelling / renaming invariance of the model, call-history refinement, parameter precedence, tau>=1/2; attribute frames regenerated from the AST and decided) + invariances evaluated on the implementation',
+            'Proof: the model of gamma_method is proved invariant under i -> a*i+b and replica renaming for every input, the '
+            'history state machine is proved to depend only on the last analysis and the parameters effective then (argument over '
+            'dictionary over global), and the write/reset/read frames of gamma_method and derived_observable are regenerated from '
+            'the source on every run and decided. Every invariance of the statement is additionally evaluated on the implementation.',
+            'Lean kernel; standard axioms; tr_frames (Python ast) trusted to parse; FFT by contract; generator-bounded search.', '5 C03'),
 }
 
 NOT_YET = {}
